@@ -616,6 +616,11 @@ fn scm_case(sm: &mut Box<Sim>, slot: u64) -> Out {
                 return;
             }
         }
+        // a second message without descriptors: received later into the SAME control buffer
+        let payload2 = [0x5au8; 3];
+        let io2 = [IoSlice::new(&payload2)];
+        let send2 = MsgHdrBorrow::create_send(None, &io2, None);
+        let _ = rusl::network::sendmsg(Fd::try_new(sv[0]).unwrap(), &send2, 0);
         let pid = unsafe { libc::fork() };
         if pid == 0 {
             // receiver: control buffer flush against an inaccessible page
@@ -657,6 +662,25 @@ fn scm_case(sm: &mut Box<Sim>, slot: u64) -> Out {
                 }
                 out.push(count);
                 out.extend(ids);
+                // second receive, same control buffer (it still holds the first message's header)
+                let mut stale = 0u64;
+                {
+                    let ctl2: &mut [u8] = std::slice::from_raw_parts_mut(ctl_ptr, ctl_len);
+                    let mut rb2 = vec![0u8; 16];
+                    let rbp2: &mut [u8] = std::slice::from_raw_parts_mut(rb2.as_mut_ptr(), rb2.len());
+                    let mut rio2 = [IoSliceMut::new(rbp2)];
+                    let mut hdr2 = MsgHdrBorrow::create_recv(&mut rio2, if ctl_len > 0 { Some(ctl2) } else { None });
+                    if rusl::network::recvmsg(Fd::try_new(sv[1]).unwrap(), &mut hdr2, 0x40).is_ok() {
+                        for m in hdr2.control_messages() {
+                            let ControlMessageSend::ScmRights(fds) = m;
+                            stale += fds.len() as u64 + 1;
+                            if stale > 64 {
+                                break;
+                            }
+                        }
+                    }
+                }
+                out.push(stale);
                 out.push(u64::from(rb[..payload_len.min(128)] == payload[..payload_len.min(128)]));
                 let bytes: Vec<u8> = out.iter().flat_map(|v| v.to_le_bytes()).collect();
                 libc::write(pipefd[1], bytes.as_ptr().cast(), bytes.len());
@@ -688,7 +712,8 @@ fn scm_case(sm: &mut Box<Sim>, slot: u64) -> Out {
         let n = words[0];
         let count = words[1] as usize;
         let fit = if ctl_len >= 16 + 4 { ((ctl_len - 16) / 4).min(nfds) } else { 0 };
-        if n != payload_len as u64 {
+        // without descriptors the two messages are plain stream data and may arrive in one read
+        if n != payload_len as u64 && !(nfds == 0 && n == payload_len as u64 + 3) {
             viol = Some(Violation { sig: "scm|payload-length".into(), detail: format!("recvmsg returned {n}, {payload_len} bytes were sent") });
         } else if count != fit {
             viol = Some(Violation { sig: format!("scm|descriptor-count|control-buffer-{class}"), detail: format!("{nfds} descriptors sent, control buffer of {ctl_len} bytes has room for {fit}, the iterator yielded {count}") });
@@ -699,6 +724,10 @@ fn scm_case(sm: &mut Box<Sim>, slot: u64) -> Out {
                     viol = Some(Violation { sig: "scm|wrong-descriptor".into(), detail: format!("descriptor {i} designates file {got:?}, sent {:?}", sent[i]) });
                     break;
                 }
+            }
+            let stale = words.get(words.len().saturating_sub(2)).copied().unwrap_or(0);
+            if viol.is_none() && stale != 0 {
+                viol = Some(Violation { sig: format!("scm|stale-descriptors-from-reused-control-buffer|control-buffer-{class}"), detail: format!("a second message that carried no descriptors, received into the control buffer used for the first one ({nfds} descriptors), yielded control messages again") });
             }
             if viol.is_none() && words.last() != Some(&1) {
                 viol = Some(Violation { sig: "scm|payload-content".into(), detail: "payload bytes differ".into() });
